@@ -340,6 +340,74 @@ def escapeLike : Str → Str
   | [] => []
   | c :: s => if c = '!' ∨ c = '%' ∨ c = '_' then '!' :: c :: escapeLike s else c :: escapeLike s
 
+/-! ## statement structure: what the SQL parser sees once quoted tokens are taken out -/
+
+/-- the three quote characters of standard SQL text as the dialects here lex it: `'` strings, `"` and `` ` `` identifiers -/
+def isQuote (c : Char) : Bool := c == '\'' || c == '\x22' || c == '`'
+
+/-- lexer state: outside any quoted token / inside a token opened by `q` / inside such a token, having just read `q`
+    (which is either the closing quote or the first half of a doubled quote) -/
+inductive QState | out | inq (q : Char) | endq (q : Char)
+
+/-- one element of the statement skeleton: a structural character, or a whole quoted token opened by `q` -/
+inductive Skel
+  | ch (c : Char)
+  | quoted (q : Char)
+  deriving DecidableEq, Repr
+
+/-- The statement with every quoted token collapsed to a marker: exactly the part of the text that decides the
+    structure of the statement.  `none`: an unterminated quoted token. -/
+def skeleton : QState → Str → Option (List Skel)
+  | .out, [] => some []
+  | .out, c :: r => if isQuote c then skeleton (.inq c) r else (skeleton .out r).map (Skel.ch c :: ·)
+  | .inq _, [] => none
+  | .inq q, c :: r => if c = q then skeleton (.endq q) r else skeleton (.inq q) r
+  | .endq q, [] => some [Skel.quoted q]
+  | .endq q, c :: r =>
+      if c = q then skeleton (.inq q) r
+      else if isQuote c then (skeleton (.inq c) r).map (Skel.quoted q :: ·)
+      else (skeleton .out r).map (fun t => Skel.quoted q :: Skel.ch c :: t)
+
+/-- a generated statement as the sequence of pieces the builders concatenate -/
+inductive Piece
+  | raw (t : Str)                 -- SQL keywords, operators, placeholders, numbers: text written by Pony itself
+  | lit (s : Str)                 -- a string value rendered by `quote_str`
+  | ident (q : Char) (n : Str)    -- a name rendered by `quote_name` with quote character `q`
+  deriving Repr
+
+def Piece.render : Piece → Str
+  | .raw t => t
+  | .lit s => stdQuote s
+  | .ident q n => quoteNameL q n
+
+def renderPieces : List Piece → Str
+  | [] => []
+  | p :: ps => p.render ++ renderPieces ps
+
+def Piece.skel : Piece → List Skel
+  | .raw t => t.map Skel.ch
+  | .lit _ => [Skel.quoted '\'']
+  | .ident q _ => [Skel.quoted q]
+
+def skelPieces : List Piece → List Skel
+  | [] => []
+  | p :: ps => p.skel ++ skelPieces ps
+
+/-- the piece with its value erased -/
+def Piece.shape : Piece → Piece
+  | .raw t => .raw t
+  | .lit _ => .lit []
+  | .ident q _ => .ident q []
+
+/-- Well-formedness of a piece sequence; `prev` is the quote character of the quoted piece that immediately precedes.
+    Raw text contains no quote character; identifier quote characters are quote characters; two tokens quoted with the
+    same character are never adjacent (Pony always writes a separator: `, `, `.`, ` = `, a space). -/
+def WFPieces : Option Char → List Piece → Prop
+  | _, [] => True
+  | prev, .raw t :: r => (∀ c ∈ t, isQuote c = false) ∧ WFPieces (if t = [] then prev else none) r
+  | prev, .lit _ :: r => prev ≠ some '\'' ∧ WFPieces (some '\'') r
+  | prev, .ident q _ :: r => isQuote q = true ∧ prev ≠ some q ∧ WFPieces (some q) r
+
 /-! ## Pony: parameters (`SQLBuilder.__init__`, `Param.__str__`) -/
 
 /-- The loop `for i, param in enumerate(params): if param.id is None: param.id = i + 1` over the occurrences of `Param`
